@@ -156,6 +156,50 @@ def _after_fin(conn, e):
     return False
 
 
+def framing_against_independent_decoders():
+    """what the framers write is what other people's decoders read: encapsulated frames (VLAN tags, IPv4 options, IPv6 extension headers) through dpkt's
+    Ethernet/IP decoders, captures of several interfaces / sections through scapy's pcapng reader (section by section: scapy keeps numbering interfaces across
+    sections, the specification restarts at 0)"""
+    import io
+    import dpkt
+    import logging
+    logging.getLogger("scapy").setLevel(logging.ERROR)
+    from scapy.utils import RawPcapNgReader
+    rng = random.Random(20)
+    nf = 0
+    for v6 in (False, True):
+        for _ in range(150):
+            enc = ns.random_encap(rng, v6)
+            src, dst = (rng.randbytes(16), rng.randbytes(16)) if v6 else (rng.randbytes(4), rng.randbytes(4))
+            pl = rng.randbytes(rng.randrange(0, 40))
+            for proto in (6, 17):
+                l4 = ns.tcp_segment(src, dst, 1234, 443, 5, 6, 0x18, pl) if proto == 6 else ns.udp_datagram(src, dst, 1234, 443, pl)
+                fr = ns.eth_frame(b"\x02" * 6, b"\x04" * 6, ns.ip_packet(src, dst, proto, l4, opts=enc.opts, ext=enc.ext), vlan=enc.vlan)
+                t = dpkt.ethernet.Ethernet(fr).data.data
+                assert isinstance(t, (dpkt.tcp.TCP, dpkt.udp.UDP)) and t.data == pl and t.sport == 1234, enc.describe()
+                l3, l4o, end, pr, is6 = ns.locate(fr)
+                assert fr[l4o:end] == l4 and pr == proto and end == len(fr) and is6 == v6, enc.describe()
+                nf += 1
+    pk = [("pkt", 1700000000000000 + i * 1000, bytes([i]) * 60) for i in range(14)]
+    want = [(bytes([i]), 1700000000000000 + i * 1000) for i in range(14)]
+    nc = 0
+    for le in (True, False):
+        for secs in (1, 2, 3):
+            for late in (False, True):
+                cap = ns.pcapng_multi(pk, [(None, None), (9, None), (3, None)], lambda n: n * 7 // 3, le=le, sections=secs, late_idb=late)
+                magic = b"\x0a\x0d\x0d\x0a"
+                cuts = [i for i in range(0, len(cap), 4) if cap[i:i + 4] == magic and cap[i + 8:i + 12] in (b"\x4d\x3c\x2b\x1a", b"\x1a\x2b\x3c\x4d")] + [len(cap)]
+                assert len(cuts) == secs + 1
+                got = []
+                for a, b in zip(cuts, cuts[1:]):
+                    for data, meta in RawPcapNgReader(io.BytesIO(cap[a:b])):
+                        got.append((data[:1], ((meta.tshigh << 32) | meta.tslow) * 1000000 // meta.tsresol))
+                assert got == want, (le, secs, late, got[:4])
+                nc += 1
+    print(f"  framers: {nf} encapsulated frames decoded by dpkt, {nc} multi-interface / multi-section captures read back by scapy's pcapng reader")
+
+
 def run():
     output_oracle()
     sender_roundtrip()
+    framing_against_independent_decoders()
